@@ -7,7 +7,7 @@ META = {
     "engine": "graph",
     "technique": "TLA+ Braid/MC_Braid: TLC checks AlgBraid (transcribed braid.rs) = RefBraid (C03's reference) on every DAG <= 4 commands; every emitted DAG is replayed into real replicas and the real fact state compared with RefBraid",
     "text": "Design level: TLC enumerates every command DAG with <= 4 commands beyond init (priorities {0,1}, finalize, every id order, nested merges; N=5 over {basic, finalize} in thorough) and checks that the transcription of braid()/convergence counts equals the storage-independent reference braid, that the pairwise LCA walk is order independent and that the max_cut cut-off is sound. Code level: the DAGs TLC emits (all for N=3 incl. set/delete/set-if-absent fact semantics and merge-ids-first; 1 in 6 of the 58 789 N=4 DAGs, seed-selected) are delivered into real ClientState replicas (two histories each, STRETCH chains up to 14 — 300 in thorough — crossing skip-list and spill thresholds) and the committed `seq` fact (exact application order) and keyed facts must equal the reference braid's.",
-    "note": "Bounds: <= 4 (5) abstract commands beyond init, antichains of 2-3 heads; the audit policy (harness/engines/graph/src/audit.rs) stands in for real policies; ids are structural so byte order = spec order. Layout independence is covered by two delivery histories per DAG and STRETCH, not by all layouts.",
+    "note": 'Bounds: exhaustive DAGs <= 4 commands beyond init (all DAGs with >= 3 heads replayed, others 1 in 6; N=5 in thorough), fact ops incl. quiet and rejected-in-braid commands at N=3/4, exhaustive histories for universe <= 3 / 5 steps / 2 replicas (two-command actions, forged merges), exhaustive poison positions (22 300 behaviours), C10 first-contact shapes, seeded simulation to universe 8 / 16 steps / 3 replicas; harness-parameterised families ladder (<= 900 rungs, 2 500 thorough), fan (<= 600 forks), star (<= 130 heads); STRETCH 14 (24/60 for C11, 300 thorough). Audit policy stands in for real policies; memory-backed storage; RuntimeBuffers shared by all replayed replicas; no storage fault injection.',
 }
 
 
